@@ -322,7 +322,49 @@ def check_parser_family(prop, tier):
     return 1 if fresh > 0 else 0
 
 
+def check_shapes(prop, tier):
+    """C09: MC_Shapes enumerates every token shape (segments x header x decoded length 0..400 x
+    canonical x footer segment) and proves on the model that every entry point answers with a
+    format/authentication error; every shape is replayed against all 24 entry points."""
+    t0 = time.time()
+    res = verif.run_tlc("MC_Shapes.tla", "MC_Shapes.cfg", workers=8, timeout=3000)
+    verif.require_model_ok(res, "MC_Shapes")
+    shapes = verif.printed_records(res["out"], "SHAPE")
+    hexc = verif.printed_records(res["out"], "HEX")
+    if not shapes or not hexc:
+        raise ToolError("MC_Shapes printed no cases")
+    sp = os.path.join(verif.WORK, "shapes_%s.ndjson" % tier)
+    hp = os.path.join(verif.WORK, "hex_%s.json" % tier)
+    verif.write_ndjson(sp, shapes)
+    json.dump(hexc[0], open(hp, "w"))
+    out = os.path.join(verif.WORK, "replay_C09_%s.json" % tier)
+    verif.run_pv(["replay-shapes", "--shapes", sp, "--hex", hp, "--tier", tier, "--seed", str(verif.seed()), "--out", out], timeout=7200)
+    s = _summary(out)
+    # a panic observed by any other replay is also a C09 violation; the core replay reports those under C09 as well
+    fresh = verif.report(prop, s["violations"], tier)
+    coverage = {
+        "states": res["distinct"],
+        "transitions": res["states"],
+        "traces_validated_against_impl": s["shapes"],
+        "samples": s["samples"] or [shapes[0]],
+        "evaluations": s["evaluations"],
+        "distinct_nontrivial": s["distinct"],
+        "rule": "MC_Shapes: every (header in 8 protocols + wrong, segment count 0..6, decoded payload length 0..400, canonical / "
+                "non-canonical, footer segment none/matching/other) - %d shapes, NoPanic/NoOk proved on the model for all entry points; "
+                "each shape instantiated with zero/0xff/random bytes and presented to 8 protocols x 3 layers x {no, matching} expected "
+                "footer under catch_unwind; plus every prefix of authentic tokens, random Unicode with 0..6 dots, runs of dots, 1 MiB "
+                "inputs; plus Key::<N>::try_from(hex) for N in {24,32,48,49,64} x every length 0..200 x {hex, non-hex} (%d cases); "
+                "one evaluation = one call of one entry point; distinct = distinct input strings" % (len(shapes), s["hex_cases"]),
+        "tlc_invariants": "Inv_NoPanicNoOk",
+        "exhaustive": False,
+    }
+    verif.write_evidence(prop, tier, coverage, CORE_ASSUMPTIONS[:2] + ["catch_unwind observes every panic of the code under test (panic=unwind build)"],
+                         time.time() - t0, s["nviol"])
+    return 1 if fresh > 0 else 0
+
+
 REGISTRY = {}
+REGISTRY["C09"] = check_shapes
 for _p in ("C11", "C12", "C15", "C16"):
     REGISTRY[_p] = check_parser_family
 for _p in ("C10", "C13", "C14", "C17"):
